@@ -19,4 +19,11 @@ def check(ctx: Ctx) -> str:
     capture_site_rules(ctx, "R1")
     runtime_selector_rule(ctx, "R2")
     output_wrapping_rule(ctx, "R3")
+    # "exactly once": whatever is marked safe must have been escaped (or be template text);
+    # wrapping unescaped pieces in Markup skips the one escape, wrapping escaped output again
+    # doubles it - the construction inventory (shared with C15 / C24) decides the first half
+    from ..markup import markup_inventory
+
+    ctx.use('filters', 'utils', 'ext', 'nodes')
+    markup_inventory(ctx, "R4")
     return __doc__ or ""
